@@ -20,6 +20,7 @@ fn main() {
     if args[0] == "--worker" {
         match args.get(1).map(|s| s.as_str()) {
             Some("C17") => props::c17::worker_main(),
+            Some("C20") => props::c20::worker_main(),
             _ => std::process::exit(2),
         }
         return;
@@ -67,6 +68,7 @@ fn main() {
         "C04" => engine::run(&props::c04::C04, &opts),
         "C05" => engine::run(&props::c05::C05, &opts),
         "C06" => engine::run(&props::c06::C06, &opts),
+        "C07" => engine::run(&props::c07::C07 { tier }, &opts),
         "C08" => engine::run(&props::c08::C08, &opts),
         "C09" => engine::run(&props::c09::C09, &opts),
         "C10" => engine::run(&props::c10::C10, &opts),
@@ -79,6 +81,7 @@ fn main() {
         "C17" => engine::run(&props::c17::C17, &opts),
         "C18" => engine::run(&props::c18::C18, &opts),
         "C19" => engine::run(&props::c19::C19, &opts),
+        "C20" => engine::run(&props::c20::C20, &opts),
         _ => {
             eprintln!("unknown property {}", id);
             2
